@@ -15,8 +15,10 @@ Structure of the argument for every cache of the engine:
    (`C05_transparent_of_sufficient`), and an insufficient key + a retained entry ⇒ a wrong answer
    (`C05_not_transparent_of_insufficient`);
 3. sufficiency of each concrete key over the explicit read-set of its stage — full strength for the T1 key
-   (after the repairs: content-derived etag, `perf_enabled` keyed), `_partial` + one machine-checked negation
-   witness per omitted dimension for the T2 stage key and the turn-level key.
+   (content-derived etag, `perf_enabled` keyed) and for the repaired turn-level key (`_t2_turn_key_context`), each
+   under the faithfulness of the version components it carries; for the repaired T2 stage key (label map, hybrid +
+   GEL digest, index identity, whole quality digest) under `IndexVersionFaithful` and equal `rest`; negation
+   witnesses for what still refutes those hypotheses and, as history, for the keys before the repairs.
 -/
 
 namespace Clem.CacheKeys
@@ -180,16 +182,23 @@ theorem C05_t1_legacy_key_ignores_perf :
 
 /-! ## 3b. T2 stage cache -/
 
-/-- Full statement (NOT provable of the current code): `Sufficient t2Key (t2Stage compute)` for every `compute`.
-Proved: sufficiency once the three unkeyed parts of the read-set agree — the index is identified by its version
-(`IndexFaithful`), the label map of the active graphs, and the hybrid/GEL + remaining quality inputs. -/
+/-- Sufficiency of the repaired T2 key (label map, hybrid settings + GEL digest and the index identity are keyed).
+What remains a hypothesis: `IndexVersionFaithful` — within ONE index object the version stands for the content
+(append-only `add`: `C05_index_append_version_faithful`; refuted by an in-place upsert) — and `rest`: a custom
+`ctx.enc` encoder object and the CONTENTS of an aliasing map file, which are not configuration values. -/
 theorem C05_t2_key_sufficient_partial {V : Type} (compute : T2Eff → V) (r r' : T2Raw)
     (hk : t2Key r = t2Key r')
     (hIndexFaithful : IndexVersionFaithful r r')
-    (hLabelMap : r.labelMap = r'.labelMap) (hRest : r.rest = r'.rest) :
+    (hRest : r.rest = r'.rest) :
     t2Stage compute r = t2Stage compute r' := by
   have hv : r.indexVer = r'.indexVer := congrArg T2Key.indexVer hk
-  simp only [t2Stage, t2Eff, hk, hIndexFaithful hv, hLabelMap, hRest]
+  have ht : r.indexTok = r'.indexTok := congrArg T2Key.indexTok hk
+  simp only [t2Stage, t2Eff, hk, hIndexFaithful ht hv, hRest]
+
+/-- The repaired dimensions are part of the key: equal keys ⇒ equal label map, hybrid/GEL digest and index object. -/
+theorem C05_t2_repaired_dims_keyed (r r' : T2Raw) (hk : t2Key r = t2Key r') :
+    r.labelMap = r'.labelMap ∧ r.hybrid = r'.hybrid ∧ r.indexTok = r'.indexTok ∧ r.quality = r'.quality :=
+  ⟨congrArg T2Key.labelMap hk, congrArg T2Key.hybrid hk, congrArg T2Key.indexTok hk, congrArg T2Key.quality hk⟩
 
 /-- Append-only `add` keeps the version faithful within one index object: along any history of adds the version
 counts the rows, so two moments of the same index with equal versions hold the same rows. -/
@@ -238,11 +247,11 @@ theorem C05_t2_qtext_keyed (r r' : T2Raw) (hk : t2Key r = t2Key r') :
 def t2Sample : T2Raw :=
   { tiers := [1], text := [97], labels := [[98]], recentDays := 30, simThr := 0, topM := 3, quality := none,
     sliceK := none, ownerScope := 1, owner := 65, kRetrieval := 10, now := 5, rank := (1, 0, 0), residualCap := 32,
-    kSurface := 32, indexVer := 4, index := 100, labelMap := 200, rest := 300 }
+    kSurface := 32, indexVer := 4, indexTok := 1, labelMap := 200, hybrid := 0, index := 100, rest := 300 }
 
 /-- Non-vacuity: the hypotheses hold for a request and its exact repetition. -/
 example (compute : T2Eff → Nat) : t2Stage compute t2Sample = t2Stage compute t2Sample :=
-  C05_t2_key_sufficient_partial compute t2Sample t2Sample rfl (fun _ => rfl) rfl rfl
+  C05_t2_key_sufficient_partial compute t2Sample t2Sample rfl (fun _ _ => rfl) rfl
 
 example : t2QText [32, 97, 32] [[99], [98]] = [97, 32, 98, 32, 99] := by decide
 example : t2QText [32, 97, 32] [] = [97] := by decide
@@ -252,7 +261,7 @@ example : t2QText [] [[98]] = [98] := by decide
 theorem C05_t2_key_insufficient_inplace_upsert :
     ∃ r r' : T2Raw, t2Key r = t2Key r' ∧ ¬ IndexVersionFaithful r r' ∧ t2Stage id r ≠ t2Stage id r' :=
   ⟨{ t2Sample with indexVer := 2, index := 1020 }, { t2Sample with indexVer := 2, index := 1120 },
-   by decide, by simp [IndexVersionFaithful], by decide⟩
+   by decide, by simp [IndexVersionFaithful, t2Sample], by decide⟩
 
 /-- A digest of the whole quality subtree is faithful … -/
 theorem C05_quality_digest_whole_faithful (q q' : QCfg) (h : digestAll q = digestAll q') : q = q' := h
@@ -269,17 +278,22 @@ theorem C05_t2_key_insufficient_digest_drops_leaf :
       { t2Key r with quality := none } = { t2Key r' with quality := none } ∧ t2Stage id r ≠ t2Stage id r' :=
   ⟨{ t2Sample with quality := some 0 }, { t2Sample with quality := some 1 }, by decide, by decide, by decide, by decide⟩
 
-/-- Negation witness, dimension **label map** (a node label edited outside T1's reach). -/
-theorem C05_t2_key_insufficient_labelmap :
-    ∃ r r' : T2Raw, t2Key r = t2Key r' ∧ t2Stage id r ≠ t2Stage id r' :=
-  ⟨t2Sample, { t2Sample with labelMap := 201 }, by decide, by decide⟩
+/-- (history of the defect `C05:t2:node_label`) before the label map was keyed: a node label edited outside T1's reach. -/
+theorem C05_t2_pre_key_insufficient_labelmap :
+    ∃ r r' : T2Raw, t2KeyPre r = t2KeyPre r' ∧ t2Key r ≠ t2Key r' ∧ t2Stage id r ≠ t2Stage id r' :=
+  ⟨t2Sample, { t2Sample with labelMap := 201 }, by decide, by decide, by decide⟩
 
-/-- Negation witness, dimension **state / index identity** (two states whose indexes have equal `_ver`). -/
-theorem C05_t2_key_insufficient_index :
-    ∃ r r' : T2Raw, t2Key r = t2Key r' ∧ t2Stage id r ≠ t2Stage id r' :=
-  ⟨t2Sample, { t2Sample with index := 101 }, by decide, by decide⟩
+/-- (history of the defect `C05:t2:state`) before the index identity was keyed: two states whose indexes have equal `_ver`. -/
+theorem C05_t2_pre_key_insufficient_index :
+    ∃ r r' : T2Raw, t2KeyPre r = t2KeyPre r' ∧ t2Key r ≠ t2Key r' ∧ t2Stage id r ≠ t2Stage id r' :=
+  ⟨t2Sample, { t2Sample with indexTok := 2, index := 101 }, by decide, by decide, by decide⟩
 
-/-- Negation witness, dimension **hybrid / GEL / rest**. -/
+/-- (history of the defect `C05:t2:hybrid`) before the hybrid settings and the GEL digest were keyed. -/
+theorem C05_t2_pre_key_insufficient_hybrid :
+    ∃ r r' : T2Raw, t2KeyPre r = t2KeyPre r' ∧ t2Key r ≠ t2Key r' ∧ t2Stage id r ≠ t2Stage id r' :=
+  ⟨{ t2Sample with hybrid := 7 }, { t2Sample with hybrid := 8 }, by decide, by decide, by decide⟩
+
+/-- Negation witness, what is still outside the key: **rest** (custom encoder object, alias file contents). -/
 theorem C05_t2_key_insufficient_rest :
     ∃ r r' : T2Raw, t2Key r = t2Key r' ∧ t2Stage id r ≠ t2Stage id r' :=
   ⟨t2Sample, { t2Sample with rest := 301 }, by decide, by decide⟩
@@ -289,66 +303,72 @@ theorem C05_t2_legacy_key_owner_leak :
     ∃ r r' : T2Raw, r.owner ≠ r'.owner ∧ t2KeyLegacy r = t2KeyLegacy r' ∧ t2Stage id r ≠ t2Stage id r' :=
   ⟨t2Sample, { t2Sample with owner := 66 }, by decide, by decide, by decide⟩
 
-/-- The label-map witness is answered wrongly by a real container (TTL LRU, cap 2, from empty). -/
+/-- The (historic) label-map witness is answered wrongly by a real container (TTL LRU, cap 2, from empty). -/
 theorem C05_t2_labelmap_stale_on_ttl_lru :
-    runCached ttlSem (fun r : T2Raw => if t2Key r = t2Key t2Sample then 0 else 1) (fun r => r.labelMap)
+    runCached ttlSem (fun r : T2Raw => if t2KeyPre r = t2KeyPre t2Sample then 0 else 1) (fun r => r.labelMap)
         ⟨Clem.TtlLru.Ns.init 2 300, 0⟩ [.req t2Sample, .req { t2Sample with labelMap := 201 }]
       ≠ runUncached (fun r : T2Raw => r.labelMap) [.req t2Sample, .req { t2Sample with labelMap := 201 }] := by
   decide
 
 /-! ## 3c. turn-level manager -/
 
-/-- Full statement (NOT provable): `Sufficient turnKey (turnStage compute)`.  Proved: sufficiency once every
-dimension the key omits agrees — agent, what T1 reached, label map, T2 configuration, memory, reference date. -/
-theorem C05_turn_key_sufficient_partial {V : Type} (compute : TurnEff → V) (r r' : TurnRaw)
+/-- **Full strength after the repair** (`_t2_turn_key_context`): the turn-level key determines the wrapped T2 stage's
+result.  The two hypotheses are the faithfulness of the version components the key carries (as `EtagFaithful` for
+T1): the graph etags + T1's touched ids stand for the labels, the index version stands for the memory content. -/
+theorem C05_turn_key_sufficient {V : Type} (compute : TurnEff → V) (r r' : TurnRaw)
     (hk : turnKey r = turnKey r')
-    (hAgent : r.agent = r'.agent) (hT1 : r.t1Labels = r'.t1Labels) (hLabelMap : r.labelMap = r'.labelMap)
-    (hConfig : r.config = r'.config) (hMemory : r.memory = r'.memory) (hNow : r.now = r'.now) :
+    (hGraph : TurnGraphFaithful r r') (hMemory : TurnMemoryFaithful r r') :
     turnStage compute r = turnStage compute r' := by
   have ht : r.text = r'.text := congrArg TurnKey.text hk
   have hs : r.sliceK = r'.sliceK := congrArg TurnKey.sliceK hk
-  simp only [turnStage, turnEff, ht, hs, hAgent, hT1, hLabelMap, hConfig, hMemory, hNow]
+  have ha : r.agent = r'.agent := congrArg TurnKey.agent hk
+  have hn : r.now = r'.now := congrArg TurnKey.now hk
+  have hc : r.config = r'.config := congrArg TurnKey.config hk
+  have hg : r.gel = r'.gel := congrArg TurnKey.gel hk
+  obtain ⟨hl, hm⟩ := hGraph (congrArg TurnKey.t1Sig hk) (congrArg TurnKey.graphs hk)
+  have hmem := hMemory (congrArg TurnKey.indexVer hk)
+  simp only [turnStage, turnEff, ht, hs, ha, hn, hc, hg, hl, hm, hmem]
 
 def turnSample : TurnRaw :=
-  { version := none, text := [97], sliceK := none, agent := 1, t1Labels := 2, labelMap := 3, config := 4,
-    memory := 5, now := 6 }
+  { version := none, text := [97], sliceK := none, agent := 1, now := 6, config := 4, t1Sig := 7, graphs := 8,
+    indexVer := 4, gel := 0, t1Labels := 2, labelMap := 3, memory := 5 }
 
-/-- Non-vacuity of the partial theorem's hypotheses. -/
+/-- Non-vacuity of the hypotheses. -/
 example (compute : TurnEff → Nat) : turnStage compute turnSample = turnStage compute turnSample :=
-  C05_turn_key_sufficient_partial compute turnSample turnSample rfl rfl rfl rfl rfl rfl rfl
+  C05_turn_key_sufficient compute turnSample turnSample rfl (fun _ _ => ⟨rfl, rfl⟩) (fun _ => rfl)
 
 example : turnKey turnSample = turnKey { turnSample with version := some [] } := by decide
 example : turnKey turnSample = turnKey { turnSample with version := some [48] } := by decide
 example : turnKey turnSample ≠ turnKey { turnSample with version := some [49] } := by decide
 
-theorem C05_turn_key_insufficient_agent :
-    ∃ r r' : TurnRaw, turnKey r = turnKey r' ∧ turnStage id r ≠ turnStage id r' :=
-  ⟨turnSample, { turnSample with agent := 9 }, by decide, by decide⟩
+/-- (history of the defects `C05:turn:agent`, `:config`, `:now`, `:t1_labels`, `:node_label`, `:memory_add`) the key
+`(version, text[, t2_k])` collided for requests that differ in any of these dimensions; the repaired key separates
+each of them. -/
+theorem C05_turn_legacy_key_insufficient :
+    (∃ r r' : TurnRaw, turnKeyLegacy r = turnKeyLegacy r' ∧ turnKey r ≠ turnKey r' ∧ r.agent ≠ r'.agent) ∧
+    (∃ r r' : TurnRaw, turnKeyLegacy r = turnKeyLegacy r' ∧ turnKey r ≠ turnKey r' ∧ r.config ≠ r'.config) ∧
+    (∃ r r' : TurnRaw, turnKeyLegacy r = turnKeyLegacy r' ∧ turnKey r ≠ turnKey r' ∧ r.now ≠ r'.now) ∧
+    (∃ r r' : TurnRaw, turnKeyLegacy r = turnKeyLegacy r' ∧ turnKey r ≠ turnKey r' ∧ r.t1Labels ≠ r'.t1Labels) ∧
+    (∃ r r' : TurnRaw, turnKeyLegacy r = turnKeyLegacy r' ∧ turnKey r ≠ turnKey r' ∧ r.labelMap ≠ r'.labelMap) ∧
+    (∃ r r' : TurnRaw, turnKeyLegacy r = turnKeyLegacy r' ∧ turnKey r ≠ turnKey r' ∧ r.memory ≠ r'.memory) :=
+  ⟨⟨turnSample, { turnSample with agent := 9 }, by decide, by decide, by decide⟩,
+   ⟨turnSample, { turnSample with config := 9 }, by decide, by decide, by decide⟩,
+   ⟨turnSample, { turnSample with now := 9 }, by decide, by decide, by decide⟩,
+   ⟨turnSample, { turnSample with t1Sig := 9, t1Labels := 9 }, by decide, by decide, by decide⟩,
+   ⟨turnSample, { turnSample with graphs := 9, labelMap := 9 }, by decide, by decide, by decide⟩,
+   ⟨turnSample, { turnSample with indexVer := 5, memory := 9 }, by decide, by decide, by decide⟩⟩
 
-theorem C05_turn_key_insufficient_t1_labels :
-    ∃ r r' : TurnRaw, turnKey r = turnKey r' ∧ turnStage id r ≠ turnStage id r' :=
-  ⟨turnSample, { turnSample with t1Labels := 9 }, by decide, by decide⟩
+/-- What still refutes the hypotheses: an in-place edit that keeps the index version (memory) — the key cannot see it. -/
+theorem C05_turn_key_insufficient_inplace_memory :
+    ∃ r r' : TurnRaw, turnKey r = turnKey r' ∧ ¬ TurnMemoryFaithful r r' ∧ turnStage id r ≠ turnStage id r' :=
+  ⟨turnSample, { turnSample with memory := 9 }, by decide, by simp [TurnMemoryFaithful, turnSample], by decide⟩
 
-theorem C05_turn_key_insufficient_node_label :
-    ∃ r r' : TurnRaw, turnKey r = turnKey r' ∧ turnStage id r ≠ turnStage id r' :=
-  ⟨turnSample, { turnSample with labelMap := 9 }, by decide, by decide⟩
-
-theorem C05_turn_key_insufficient_config :
-    ∃ r r' : TurnRaw, turnKey r = turnKey r' ∧ turnStage id r ≠ turnStage id r' :=
-  ⟨turnSample, { turnSample with config := 9 }, by decide, by decide⟩
-
-theorem C05_turn_key_insufficient_memory_add :
-    ∃ r r' : TurnRaw, turnKey r = turnKey r' ∧ turnStage id r ≠ turnStage id r' :=
-  ⟨turnSample, { turnSample with memory := 9 }, by decide, by decide⟩
-
-theorem C05_turn_key_insufficient_now :
-    ∃ r r' : TurnRaw, turnKey r = turnKey r' ∧ turnStage id r ≠ turnStage id r' :=
-  ⟨turnSample, { turnSample with now := 9 }, by decide, by decide⟩
-
-/-- What the turn-level key DOES separate: version (apply bumps it), text, slice cap. -/
+/-- What the turn-level key separates. -/
 theorem C05_turn_key_separates (r r' : TurnRaw) (hk : turnKey r = turnKey r') :
-    r.text = r'.text ∧ r.sliceK = r'.sliceK :=
-  ⟨congrArg TurnKey.text hk, congrArg TurnKey.sliceK hk⟩
+    r.text = r'.text ∧ r.sliceK = r'.sliceK ∧ r.agent = r'.agent ∧ r.now = r'.now ∧ r.config = r'.config ∧
+    r.indexVer = r'.indexVer :=
+  ⟨congrArg TurnKey.text hk, congrArg TurnKey.sliceK hk, congrArg TurnKey.agent hk, congrArg TurnKey.now hk,
+   congrArg TurnKey.config hk, congrArg TurnKey.indexVer hk⟩
 
 /-! ## monitor soundness -/
 
